@@ -229,6 +229,7 @@ def verify_contract(contract, repo, callee_contracts, models_factory, max_paths=
             rep.reason = f"{type(e).__name__}: {e}\n{traceback.format_exc()}"
             break
         rep.dropped |= I.dropped
+        rep.definitions = getattr(rep, "definitions", set()) | P.definitions
         rep.obligations.extend(P.obligations)
         work.extend(P.alternatives)
     rep.seconds = time.time() - t0
